@@ -23,17 +23,17 @@ import (
 // C20 — login tokens authenticate the issuing key and user, and expire.
 //
 // Oracles (none of them calls the code under test to decide what is right):
-//   * round trip: issue -> validate / GetUserFromToken;
-//   * structure: the issued token, decoded with gopkg.in/macaroon.v2 directly, carries exactly the
+//   - round trip: issue -> validate / GetUserFromToken;
+//   - structure: the issued token, decoded with gopkg.in/macaroon.v2 directly, carries exactly the
 //     caveats "gen = 1", "user_id = <user>", "time < T" with T = issue instant + duration, measured
 //     against the wall clock with a window (before/after the call), in Unix seconds (the unit the
 //     code documents) or Unix milliseconds (tolerated: the statement does not fix the encoding);
-//   * alterations: every altered token whose authenticated content (identifier, caveat list,
+//   - alterations: every altered token whose authenticated content (identifier, caveat list,
 //     signature) differs from the original's, or that no longer decodes, must be refused;
-//   * caveat discipline: tokens minted here with the macaroon library (with the key) or attenuated
+//   - caveat discipline: tokens minted here with the macaroon library (with the key) or attenuated
 //     (without the key, as any holder can) that lack a required caveat, or carry an additional or
 //     unknown one, must be refused for every user;
-//   * expiry: tokens minted here with "time < now+delta" must be refused for delta <= -2 s and
+//   - expiry: tokens minted here with "time < now+delta" must be refused for delta <= -2 s and
 //     accepted for delta >= +2 s (margins, no clock hook); one real-time sub-check sleeps.
 //
 // The strings below are transcribed from the property / DESIGN text, not taken from the package's
